@@ -2,6 +2,7 @@
 //! per line (`{"op","a","r"}`) for the Lean model driver to replay, plus `oracle` lines
 //! (property oracles evaluated on the implementation alone).
 mod corpus;
+mod ruledump;
 mod treedump;
 mod units;
 mod util;
